@@ -627,7 +627,7 @@ def _relabel(c, fdecl):
 
 # ---- R09.5 ----------------------------------------------------------------------------------------
 
-def check_twins(chk, tus):
+def check_twins(chk, tus, rule='R09.5'):
     ctu = tus[0]
     it = c06.make(tus)
     pairs = []
@@ -658,7 +658,7 @@ def check_twins(chk, tus):
         core_a = [p for i, p in enumerate(pa) if i not in only_a]
         tca = [ctu.desugar(astdb.qtype(p)) for p in core_a]
         tb = [ctu.desugar(astdb.qtype(p)) for p in pb]
-        if not chk.expect(tca == tb, 'R09.5', site + ':signature', 'twin emitters take different parameters: %r vs %r' % (ta, tb), site):
+        if not chk.expect(tca == tb, rule, site + ':signature', 'twin emitters take different parameters: %r vs %r' % (ta, tb), site):
             continue
         grids = []
         for p, t in zip(core_a, tca):
@@ -694,7 +694,7 @@ def check_twins(chk, tus):
             vals_b = [Ptr({'v': module()}, 'v') if c == '<module>' else c for c in combo]
             txt_b = builder_text(it, fb, lambda sbp: [sbp] + vals_b)
             n += 1
-            chk.expect(txt_a == txt_b, 'R09.5', '%s%r' % (site, combo),
+            chk.expect(txt_a == txt_b, rule, '%s%r' % (site, combo),
                        '%s writes %r but %s writes %r for arguments %r: declarations (written to the file) and uses (written through the '
                        'builder) would name different C identifiers' % (fa, txt_a, fb, txt_b, combo), site)
     return n
